@@ -15,7 +15,8 @@ RULE = ("for each configuration (outputs file / devlog / stdout / devnull / sock
         "thorough: seeded random configurations as well) a second thread performs a wrapped exec and is parked by the mutex "
         "interposer right after its k-th lock-acquisition / unlock event, for EVERY k of the call (complete enumeration, k = 1..N "
         "from a dry run) and for k beyond N (fork with no thread inside the library); the main thread then fork()s; the child "
-        "performs an exec (scripted failing and real), directly or after forking once more (depth 2). Oracle: the child's call "
+        "performs an exec (scripted failing and real), directly or after forking once more (depth 2); in further jobs a second thread of the parent calls fork() "
+        "first and is still inside its fork handlers (waiting for the parked thread) when the main thread forks. Oracle: the child's call "
         "reaches the real exec and its record appears; a lock attempt in the single-threaded child on a mutex that trylock reports "
         "busy is a deterministic deadlock verdict, and so is a child found asleep at the 10 s backstop (in futex(): a single-threaded child has nobody to wake it; or in any other system call at two looks 300 ms apart without having used CPU time); a backstop hit without that is inconclusive, never a verdict; afterwards the "
         "parked thread and the parent complete their own calls with correct records. non-trivial = the fork was taken while the "
@@ -52,7 +53,7 @@ def run_case(d, c):
     ops = [drv.op("x", out + "/log"), drv.op("S", 0, "pty")] + gen.std_sinks(out)[:5] + [drv.op("C", ini_for(out, c["okind"], c["fmt"]))] + \
           ([drv.op_exec("e", b"/bin/warm", [b"warmup"], [], ret=-1, err=2)] if warm else []) + [
                                                                    drv.op("J", c["k"], c["depth"], naux, c.get("auxk", 0),
-                                                                          reconf_ini(out, c["okind"]) if c.get("reconf") else b""),
+                                                                          reconf_ini(out, c["okind"]) if c.get("reconf") else b"", 1 if c.get("twofork") else 0),
                                                                    drv.op_exec("e", b"/bin/B", [b"thread-B-call"], [], ret=-1, err=2, tno=0, callno=0),
                                                                    drv.op_exec("v" if c["depth"] == 2 else "e", child_path, [b"child-call"], [b"C=1"], ret=-1, err=2, real=c["real"]),
                                                                    drv.op_exec("e", b"/bin/P", [b"parent-after"], [], ret=-1, err=2),
@@ -61,13 +62,20 @@ def run_case(d, c):
     reports = d.sanitizer_reports()
     what = "output %s, format %r, fork with second thread parked after event k=%d%s%s%s, depth %d, %s exec in the child" % (
         c["okind"], c["fmt"], c["k"], " and %d more threads inside their calls" % naux if naux else "", "" if warm else " of the process's first call",
-        ", configuration file rewritten (message_format line removed) right before the fork" if c.get("reconf") else "",
+        (", configuration file rewritten (message_format line removed) right before the fork" if c.get("reconf") else "") +
+        (", a further thread calling fork() at the same time (its child makes the same call)" if c.get("twofork") else ""),
         c["depth"], "real" if c["real"] else "failing")
     J = res.of("j")
     if res.timedout or not J:
         raise Failure("scenario did not complete (%s)" % what, {"result": res.describe()}, key="hang")
     k, parked, events, status = int(J[0].f[0]), int(J[0].f[1]), int(J[0].f[2]), J[0].f[3].decode()
     dl = res.of("d")
+    two = 1 if c.get("twofork") else 0
+    if two and len(J[0].f) > 7:
+        # the further forking thread's child is judged like the main thread's
+        fst = J[0].f[7].decode()
+        if fst not in ("ok", "none") and status == "ok":
+            status = fst
     if status == "deadlock" or dl:
         raise Failure("child of fork() deadlocks in its exec call: %s (%s)" % (dl[0].f[0].decode() if dl else "lock busy forever", what),
                       {"parked_in_call": bool(parked), "events_in_call": events}, key="deadlock")
@@ -90,10 +98,10 @@ def run_case(d, c):
         if len(A) != 1 or A[0].f[2:3] != [b"child-call"]:
             raise Failure("child's real exec did not start the target program (%s)" % what, None, key="child-exec")
     else:
-        if len(res.of("c")) != (2 if c["depth"] == 3 else 1):
+        if len(res.of("c")) != (2 if c["depth"] == 3 else 1) + two:
             raise Failure("child's call did not return (%s)" % what, None, key="child-exec")
     Rs = res.of("R")
-    nchild = 2 if c["depth"] == 3 else 1
+    nchild = (2 if c["depth"] == 3 else 1) + two
     want_calls = (1 if warm else 0) + 1 + naux + nchild + 1
     if len(Rs) != want_calls:
         raise Failure("%d of %d calls reached the real exec (%s)" % (len(Rs), want_calls, what), None, key="count")
@@ -373,8 +381,9 @@ def worker(args):
             continue
         naux, warm, variant = opt.get("naux", 0), opt.get("warm", True), opt.get("variant", "ts-plain")
         reconf = opt.get("reconf", False)
+        twofork = opt.get("twofork", False)
         d = driver(variant)
-        base = {"okind": okind, "fmt": fmt, "depth": depth, "real": real, "naux": 0, "auxk": 0, "warm": warm, "variant": variant, "reconf": reconf}
+        base = {"okind": okind, "fmt": fmt, "depth": depth, "real": real, "naux": 0, "auxk": 0, "warm": warm, "variant": variant, "reconf": reconf, "twofork": twofork}
         # dry run: how many lock/unlock events does the call have?
         try:
             events, _ = run_case(d, dict(base, k=0))
@@ -391,10 +400,10 @@ def worker(args):
             c = dict(base, k=k)
             try:
                 ev2, parked = run_case(d, c)
-                local.count((k, okind, fmt, depth, real, naux, warm, variant) if parked else None,
+                local.count((k, okind, fmt, depth, real, naux, warm, variant, twofork) if parked else None,
                             ["out:" + okind, "depth:%d" % depth, "real" if real else "failing", "parked" if parked else "not-parked", "build:" + variant] +
                             (["more-threads-inside:%d" % naux] if naux else []) + ([] if warm else ["first-call-of-process"]) +
-                            (["config-rewritten-before-fork"] if reconf else []), sample=c)
+                            (["config-rewritten-before-fork"] if reconf else []) + (["two-threads-forking"] if twofork else []), sample=c)
             except Skip:
                 local.count(None, ["skipped:aux-not-parked"])
             except Inconclusive as e:
@@ -485,6 +494,11 @@ def main():
         jobs.append((okind, "XCFG %{cmdline}", 1, False, {"reconf": True, "naux": 1}))
         if not ctx.quick:
             jobs.append((okind, "XCFG %{snoopy_threads} %{cmdline}", 2, False, {"reconf": True, "naux": 2, "variant": "ts-asan"}))
+    # two threads of the parent fork at the same time (the first one is still inside its fork handlers, waiting for the parked thread)
+    for okind, fmt in [CONFIGS[0], CONFIGS[1]] if ctx.quick else CONFIGS[:5]:
+        jobs.append((okind, fmt, 1, False, {"twofork": True}))
+        if not ctx.quick:
+            jobs.append((okind, fmt, 1, False, {"twofork": True, "naux": 1, "warm": False}))
     # fork() from a signal handler on the calling thread itself, at every event of its call
     for okind, fmt in [CONFIGS[0], CONFIGS[2]] if ctx.quick else CONFIGS[:5]:
         jobs.append((okind, fmt, 1, False, {"sigfork": True}))
